@@ -270,7 +270,9 @@ func (m *indexLikeMatcher) doesMatch(currentVal string) bool {
 		return strings.HasPrefix(currentVal, m.value)
 	// there might be 2 ends only for LIKE with 1 % in the middle "ab%cd"
 	case len(m.startAndEnd) == 2:
-		return strings.HasPrefix(currentVal, m.startAndEnd[0]) &&
+		// the prefix and the suffix must not overlap
+		return len(currentVal) >= len(m.startAndEnd[0])+len(m.startAndEnd[1]) &&
+			strings.HasPrefix(currentVal, m.startAndEnd[0]) &&
 			strings.HasSuffix(currentVal, m.startAndEnd[1])
 	default:
 		return m.value == currentVal
